@@ -7,16 +7,16 @@ ALL = ["C%02d" % i for i in range(1, 21)]
 # id -> (engine, technique, level text, level note, design_ref)
 CHECKS = {
     "C01": ("E1", "bounded-exhaustive enumeration of small multigraphs x algorithms x directions x orientations on the real search entry points vs structural walk/tree clauses",
-            "Every labelled multigraph of the stated families (parallel edges, self loops, dead ends, disconnected parts) is searched with Dijkstra, A* (admissible and inadmissible weight factors), single-via KSP, forward and reverse, vertex- and edge-oriented over every ordered pair of distinct edges; every returned route and tree is checked against the contiguity / rooted-tree clauses. Yen's routes are put through the same clauses inside the sandboxed C13 check.",
+            "Every labelled multigraph of the stated families (parallel edges, self loops, dead ends, disconnected parts) is searched with Dijkstra, A* (admissible and inadmissible weight factors), single-via KSP, forward and reverse, vertex- and edge-oriented over every ordered pair of distinct edges; every returned route and tree is checked against the contiguity / rooted-tree clauses; a re-opening sweep (five vertices on an unevenly spaced line, up to five metric edges, weighted A* with factors 2 and 10) covers vertices that are re-labelled after they were expanded. Yen's routes are put through the same clauses inside the sandboxed C13 check.",
             "Trusted: clause checkers in props/search_common.rs. Reverse direction only for vertex orientation (no repository entry point issues an edge-oriented reverse search). Hash order only breaks ties.", "§4.1"),
     "C02": ("E1", "bounded-exhaustive enumeration of multigraphs x unit/weight/rate/surcharge configurations on the real search vs Bellman-Ford over reference edge costs",
             "For every enumerated network and configuration the total cost of routes[0] is compared with the Bellman-Ford minimum over independently computed reference edge costs (intended weights, rates, physical units); Dijkstra everywhere, A* (wf<=1) on metric networks (3x3 lattice geometry and an unevenly spaced line on the equator, where a heuristic taken at the wrong end of an edge changes the answer), forward and reverse, vertex and edge orientation; a SearchApp layer checks that weights/rates given in the query replace the configured ones.",
             "Trusted: refmodel (Bellman-Ford, unit factors). Tolerance 1e-8 in base units, 3e-3 where the repository's unit tables (good to ~2e-4) intervene.", "§4.2"),
     "C03": ("E1", "bounded-exhaustive enumeration of multigraphs x speed/heading/delay/unit/initial-state configurations; every returned route walked against reference accumulation",
-            "Every route returned by Dijkstra, A*, single-via KSP (incl. the re-oriented reverse half), both directions and orientations, is walked edge by edge: reported state = reference accumulation of length, length/speed and classified turn delay in the configured units, each edge's cost = weighted rated change of the reported state, monotone distance/time, declared initial state.",
+            "Every route returned by Dijkstra, A*, single-via KSP (incl. the re-oriented reverse half), both directions and orientations, is walked edge by edge: reported state = reference accumulation of length, length/speed and classified turn delay in the configured units, each edge's cost = weighted rated change of the reported state, monotone distance/time, declared initial state; raw, factor, offset and combined vehicle rates; a re-opening sweep under weighted A* (factors 1.5-10) on the lattice and on the uneven line.",
             "Trusted: refmodel arithmetic in world/sw.rs. Edge-oriented origin/destination edges may follow the zero-cost convention (statement's exception).", "§4.3"),
     "C04": ("E1", "bounded-exhaustive enumeration of multigraphs x restriction configurations built by the repository's own frontier services on the real search vs raw restriction inputs in physical units",
-            "For every enumerated network: road-class tables x allowed sets (numeric and mapped names), the six vehicle-restriction kinds with limit and vehicle one step apart in different units, every single restricted turn and pairs of them, combined models of 2-3 members, and edge cuts (EdgeCutFrontierModel); Dijkstra, A*, single-via KSP, forward/reverse, vertex/edge orientation; every route and tree edge must be permitted by the raw inputs, no consecutive route pair may be a restricted turn.",
+            "For every enumerated network: road-class tables x allowed sets (numeric and mapped names), the six vehicle-restriction kinds with limit and vehicle one step apart in different units, every pair (and some triples) of kinds as several rows on the same edge, every single restricted turn and pairs of them, combined models of 2-3 members, and edge cuts (EdgeCutFrontierModel); Dijkstra, A*, single-via KSP, forward/reverse, vertex/edge orientation; every route and tree edge must be permitted by the raw inputs, no consecutive route pair may be a restricted turn.",
             "Trusted: reference evaluation of restrictions (refmodel units, 1e-3 dead band). Origin/destination edges of edge-oriented queries are chosen among permitted edges.", "§4.4"),
     "C05": ("E1", "bounded-exhaustive enumeration of (also disconnected) multigraphs x edge-local restriction sets on the real search vs BFS reachability / Bellman-Ford labels",
             "For every enumerated network, restriction set, algorithm, direction and orientation: Ok with a valid non-empty route iff the destination is BFS-reachable over permitted edges, otherwise exactly the no-path error; destination-less searches return exactly the reachable set with least-cost labels.",
@@ -25,10 +25,10 @@ CHECKS = {
             "(a) every ordered batch of length 1-3 (quick) / 1-4 (thorough) over 7 query kinds x configured parallelism 1-4 x per-run override x balancer {none, haversine, custom} x both persistence policies: the multiset of projected responses equals the union of what each query returns alone, count = sum of expansions, file and returned responses agree; (b) all weight vectors {absent,0,1,2,5}^n (n<=5/6) x parallelism 1-4 through apply_load_balancing_policy: every query in exactly one of <= parallelism bins, balanced; (c) E3: 2x2 scenario explored completely (3 864 schedules), 3-task and shared-prediction-cache scenarios (warm cache; cold cache = a fresh application built for every explored schedule, with the workers meeting the cache keys in the same and in different orders) up to a preemption bound: each task's returned responses equal the alone-responses in order, no deadlock.",
             "Trusted: rayon's scheduler/collect; structural argument that shared state is only behind the hooked mutex sites and the file (DESIGN §2.3); floats compared at 12 significant digits (hash-ordered sums).", "§4.6"),
     "C07": ("E1", "bounded-exhaustive enumeration of cost configurations x state-pair lattice on CostModel and EdgeTraversal vs closed-form cost",
-            "Every cost configuration of the alphabet (1-3 features, weights incl. zero and negative, 8 rate mappings incl. nested combined, 5 network rates, sum/mul) is evaluated on every (prev,next) pair of the {-2..2}^k lattice through traversal_cost, access_cost, cost_estimate and through forward/reverse EdgeTraversal with synthetic access/traversal models: finite, strictly positive (non-negative for estimates), equal to the formula with floor under sum, linear in weights, zero-weight features ignored.",
+            "Every cost configuration of the alphabet (1-3 features, weights incl. zero and negative, 8 rate mappings incl. nested combined for 2-3 features and, for one feature, every rate term of bounded shape (atoms and Combined lists up to length 2/3 whose elements are atoms or nested Combined lists), 5 network rates, sum/mul) is evaluated on every (prev,next) pair of the {-2..2}^k lattice through traversal_cost, access_cost, cost_estimate and through forward/reverse EdgeTraversal with synthetic access/traversal models: finite, strictly positive (non-negative for estimates), equal to the formula with floor under sum, linear in weights, zero-weight features ignored.",
             "Trusted: closed-form reference in props/c07.rs. Mul aggregation: positivity/finiteness only.", "§4.7"),
     "C08": ("E2+E1", "exhaustive enumeration of edge histories (all sequences up to a depth over a 12-edge alphabet) applied to the real EnergyTraversalModel vs reference energy / state-of-charge arithmetic",
-            "For every powertrain configuration (ICE/BEV/PHEV x prediction-model, time-model, grade-table and output units x capacity x starting charge x cache on/off; synthetic smooth models incl. negative rates and the bundled Camry/Bolt/Volt models behind the interpolated model) every edge sequence up to length 3 (quick) / 4 (thorough) is traversed step by step: energy = rate x adjustment x length in the rate's distance unit, additive; charge starts at the query value, stays in 0-100, exact change when unclamped; PHEV draws one source per edge by start-of-edge charge; best-case estimate = ideal rate x great-circle distance; bad starting charges rejected.",
+            "For every powertrain configuration (ICE/BEV/PHEV x prediction-model, time-model, grade-table and output units x capacity x starting charge x prediction cache off / 64 / 1 / 2 entries; synthetic smooth models incl. negative rates and the bundled Camry/Bolt/Volt models behind the interpolated model) every edge sequence up to length 4 (quick) / 5 (thorough) is traversed step by step: energy = rate x adjustment x length in the rate's distance unit, additive; charge starts at the query value, stays in 0-100, exact change when unclamped; PHEV draws one source per edge by start-of-edge charge; best-case estimate = ideal rate x great-circle distance; bad starting charges rejected.",
             "Trusted: reference arithmetic in props/c08.rs; synthetic PredictionModel honouring input units through physical factors. 3e-3 (2e-2 for bundled models) relative to accumulated magnitudes.", "§4.8"),
     "C09": ("E1", "bounded-exhaustive enumeration of the complete finite unit-pair space on the real code vs physical reference factors",
             "Every ordered unit pair of all six families and every constructor unit triple is executed on the implementation and compared with SI factors, linearity, identity and round-trip laws; the pair space is finite and covered completely.",
@@ -43,16 +43,16 @@ CHECKS = {
             "14 application configurations (plain, speed table, grid search, vertex/edge matching, load balancer, inject, energy model, both KSP algorithms, combined frontier) x the empty batch, every valid query, every single deviation (field removed or replaced by each of the deviant values incl. coordinates beyond f32 range, every field the configuration reads), every pair of deviations (thorough), structural specials, each alone and before/after a valid query: the worker must not panic, abort, exhaust memory or exceed the deadline; run returns Ok; one well-formed response per query echoing its request; unanswerable queries get an error response; the valid neighbour is served as if alone.",
             "Trusted: sandbox classification (timeout re-run alone with 4x deadline; RLIMIT_AS). 'Every JSON value' approximated by <=2-deviation neighbours over a 9-value alphabet.", "§4.12"),
     "C13": ("E1", "bounded-exhaustive enumeration of multigraphs x KSP configurations on the real k-shortest-paths code inside sandbox worker processes with per-case deadlines",
-            "Every enumerated network x {single-via, Yen} x k x similarity x termination criterion x underlying search (k from configuration or query): 1..k routes when reachable, first is least cost (Bellman-Ford), every route passes the C01 structure clauses, is loop free and passes the C03 accumulation oracle, pairwise distinct, pairwise below the similarity threshold (reference cosine), accept-all >= any threshold, terminates within the deadline, never an error for an answerable query.",
+            "Every enumerated network x {single-via, Yen} x k x similarity (accept-all, cosine thresholds below, at and above 1) x termination criterion (exact, max-iteration 5 / 1 / 0, factor 2 / 0) x underlying search (k from configuration or query): 1..k routes when reachable, first is least cost (Bellman-Ford), every route passes the C01 structure clauses, is loop free and passes the C03 accumulation oracle, pairwise distinct, pairwise below the similarity threshold (reference cosine), accept-all >= any threshold, terminates within the deadline, never an error for an answerable query.",
             "Trusted: sandbox classification of hangs; reference similarity. Yen's quick tier uses a covering half of its configuration product (its hanging cases cost a full timeout each).", "§4.13"),
     "C14": ("E1", "bounded-exhaustive enumeration of grids x multilinear data x point lattices on the real interpolators; bundled models x grids x lattices on the interpolated powertrain model vs the separately loaded underlying model",
-            "(a) uniform and non-uniform axes (2-4 knots, and linspace grids whose accumulated last knot falls short of the nominal bound), dimensions 1,2,3 and N=2..4, every multilinear coefficient combination (covering subset for N>=3), lattice of knots / midpoints / quarter points / bounds / bounds+-1e-9 / far outside: equality inside, agreement fixed-D vs N-D also on non-multilinear data, Err outside. (b) 6 (quick) / 45 (thorough) bundled random forests x 2-4 grids: prediction within min/max of the four surrounding underlying values, equality at grid points, continuity across grid lines, outside = nearest boundary, 3x3 input units.",
+            "(a) uniform and non-uniform axes (2-4 knots, and linspace grids whose accumulated last knot falls short of the nominal bound), dimensions 1,2,3 and N=2..4, every multilinear coefficient combination (covering subset for N>=3), lattice of knots / midpoints / quarter points / bounds / bounds+-1e-9 / far outside: equality inside, agreement fixed-D vs N-D also on non-multilinear data, Err outside. (b) 6 (quick) / 45 (thorough) bundled random forests x 2-4 grids: prediction within min/max of the four surrounding underlying values, equality at grid points, continuity across grid lines, outside = nearest boundary, 3x3 input units, and 2 (quick) / 4 (thorough) unit declarations per model (speed and rate units built on different distance units).",
             "Trusted: smartcore model loaded separately as the oracle; grid coordinates from the repository's own linspace.", "§4.14"),
     "C15": ("E1", "bounded-exhaustive enumeration of edge/vertex lists x file variants loaded by the real loaders vs the lists themselves",
             "All G(3,m,2) multigraphs with self loops, stars and hubs with in/out degree 0..8 and isolated vertices are written as plain and gzip CSV in all 6 vertex column orders, with extra columns, with explicit or scanned counts, with and without a trailing newline, loaded through Graph::from_files and DefaultGraphBuilder and compared accessor by accessor (counts, edges by id, vertices, out/in edge sets, triplets, forward = reverse view); per-edge tables (speed, grade, class, heading) row-aligned; bindings accessors.",
             "Trusted: the lists the files were written from. Coordinates written as shortest f32 decimal so comparison is exact.", "§4.15"),
     "C16": ("E1", "bounded-exhaustive enumeration of lattice vertex/edge sets x query lattice x tolerances x filters on the real matching plugins vs exhaustive scan",
-            "All 255 vertex subsets (size 1-4) of a 3x3 lattice and 6 edge sets x 52 query points (inside, on, beyond the network, far away) x 17 tolerances (none; 100/700/1300/5000 m in 4 units) x 6 road-class/vehicle filters: the matched id is in the argmin of the plugin's own measure over admissible candidates, beyond tolerance is an error, within tolerance always matches, all other query fields unchanged.",
+            "Vertex subsets of a 3x3 lattice (sizes 1-4 and 7-9 quick, all 511 thorough) and 231 edge sets (every edge and pair of a 14-edge pool, sets of 7-14 records, all 14 with one bent edge; straight, bent, hairpin and detour geometries) x 52 query points (inside, on, beyond the network, far away) x 17 tolerances (none; 100/700/1300/5000 m in 4 units) x 6 road-class/vehicle filters: the matched id is in the argmin of the plugin's own measure over admissible candidates, beyond tolerance is an error, within tolerance always matches, all other query fields unchanged.",
             "Trusted: exhaustive scan reference; ties accepted; cases within 2e-3 of the tolerance boundary skipped.", "§4.16"),
     "C17": ("E1", "bounded-exhaustive enumeration of grid-search sections on the real plugin vs reference Cartesian product",
             "1-3 grid fields x sizes 1-3(4) x element kinds (scalar, object with 1-2 keys, mixed) x every key order x extra fields x section position, through GridSearchPlugin::process and apply_input_plugins: canonical multiset of outputs equals the reference product, count = product of sizes, no grid key left, extras preserved, pass-through unchanged.",
@@ -61,7 +61,7 @@ CHECKS = {
             "(a) K one-thread worker pools each run the real run_batch_with_responses / run_batch_without_responses against one shared ResponseSink (JSON lines and CSV, flush rate 1/2, both persistence policies, successes and errors of different sizes): all schedules of the 2x2 scenarios (2 630 - 3 864 each, no bound), 3-task scenarios up to preemption bound 2-3 (quick) / 3-5 (thorough); two scenarios with one Combined sink over a JSON-lines and a CSV file (both files judged); oracle on the final file: one terminated record per response, every JSON line parses, multiset of records = responses produced, CSV single header + rows per mapping in header order, no deadlock; all 6 (60) file orders observed. (b) histories of 1-2(3) runs appending to one file x 4 formats x persistence x parallelism: single header, rows accumulate, returned responses keep their information, input-plugin failures are written.",
             "Trusted: same as C06 (c). Replaying a prefix must reproduce the same (task,event) sequence or the run aborts as a machinery error; violating schedules are replayed twice by the replay command.", "§4.19"),
     "C20": ("E1", "bounded-exhaustive enumeration of routes/trees x geometry tables x 5 output formats through the real output plugins vs edge sequence and stored geometries",
-            "Every enumerated network with a route is rendered through the real summary / traversal / uuid plugins in edge_id, json, geo_json, wkt and wkb (single routes and several KSP routes, trees, full geometry table and a table one row short, the latter also with the route rendering alone and the tree rendering alone so that one cannot mask the other): ids and per-edge records follow the returned edge sequence, geometry = concatenation of stored geometries in order, a missing geometry is an error response, one tree entry per branch, uuids of the matched vertices, summary = last state; plus an application-level pass per format.",
+            "Every enumerated network with a route is rendered through the real summary / traversal / uuid plugins in edge_id, json, geo_json, wkt and wkb (single routes and several KSP routes, trees, full geometry table and a table one row short, the latter also with the route rendering alone and the tree rendering alone so that one cannot mask the other): ids and per-edge records follow the returned edge sequence, geometry = concatenation of stored geometries in order, a missing geometry is an error response, one tree entry per branch, uuids of the matched vertices (identifier tables plain and gzip, with and without an empty identifier in a middle row), summary = last state; plus an application-level pass per format.",
             "Trusted: WKT parser in the harness, wkb crate for decoding; coordinates compared at 1e-6.", "§4.20"),
     "C18": ("E1", "exhaustive enumeration of all digraphs up to n vertices on the real code vs Floyd-Warshall reference",
             "All 2^(n^2) digraphs with self loops for n<=4 (quick) / n<=5 (thorough), all multiplicity<=2 multigraphs on 3 vertices and structured families up to 60 vertices are run through the real component analysis and compared with mutual-reachability classes.",
